@@ -90,7 +90,8 @@ theorem hmac_eq (key msg : List UInt8) (hk : key.length < 2 ^ 61) (hm : msg.leng
     · simp [hl, sha256_length]
     · simp [hl]; omega
   unfold hmac Spec.hmacSha256
-  simp only [hk2]
+  simp only [show Sha256.blockSize = 64 from rfl, show Sha256.hmacOpad = 0x5c from rfl,
+    show Sha256.hmacIpad = 0x36 from rfl, hk2]
   rw [map_range_getD _ 0 (· ^^^ 0x5c) 64 hkl, map_range_getD _ 0 (· ^^^ 0x36) 64 hkl]
   have h1 := digest_chunks sha hsha [(Spec.hmacKey key).map (· ^^^ 0x36), msg] (by simp [hkl]; omega)
   simp only [List.foldl_cons, List.foldl_nil, List.flatten_cons, List.flatten_nil, List.append_nil] at h1
